@@ -6,6 +6,7 @@ import (
 	"time"
 
 	"github.com/aperturerobotics/util/keyed"
+	ubackoff "github.com/aperturerobotics/util/backoff"
 	cbackoff "github.com/cenkalti/backoff/v4"
 	"verifsim/harness/core"
 	"verifsim/simrt"
@@ -347,11 +348,21 @@ func runRun(c *core.Ctx) {
 		opts = append(opts, keyed.WithReleaseDelay[string, int](time.Duration(w.delay)))
 	}
 	retry := c.S.PlanP(450)
-	if retry {
+	if retry && c.S.PlanP(300) {
+		// the same interval through the library's own backoff configuration
+		opts = append(opts, keyed.WithRetry[string, int](&ubackoff.Backoff{BackoffKind: ubackoff.BackoffKind_BackoffKind_CONSTANT, Constant: &ubackoff.Constant{Interval: uint32(retryNs / 1e6)}}))
+	} else if retry {
 		opts = append(opts, keyed.WithBackoff[string, int](func(string) cbackoff.BackOff { return &constBackoff{time.Duration(retryNs)} }))
 	}
 	if c.S.PlanP(400) {
 		c.S.TimerEarlyPermille = 30
+	}
+	if c.S.PlanP(400) {
+		// exit callbacks run in the routine's goroutine after the container's lock is dropped
+		opts = append(opts, keyed.WithExitCb(func(key string, _ keyed.Routine, data int, err error) {
+			c.S.Count("probe:exit-callback")
+			simrt.Yield("keyedx.exit-cb")
+		}))
 	}
 	if c.S.PlanP(350) {
 		w.rcv = keyed.NewKeyedRefCount(w.ctor, opts...)
